@@ -349,6 +349,8 @@ def main():
             chk.violation(f"{PID}:history-raises:{''.join(r['history'])}", f"history {r['history']} seed {r['seed']}: {res['error'][-160:]}", recipe=dict(kind="hist", history=r["history"], seed=r["seed"]))
             continue
         for t in hist.TARGETS:
+            if "@" in t:
+                continue  # numba variants of a target have no JIT names
             cov["traces_validated_against_impl"] += 1
             if res[t]["module"] != base[t]["module"] or res[t]["objects"] != base[t]["objects"] or res[t].get("module_with_flags") != base[t].get("module_with_flags"):
                 cause = "hash-seed" if not r["history"] else ("history" if r["seed"] == 0 else "history+hash-seed")
